@@ -223,6 +223,25 @@ def run(ctx, tier, seed, scale=1.0):
         vlib.judge_crashes(ctx, x, pcases, pres, "c01p" + flavour,
                            describe=lambda k, fl=flavour, pdesc=pdesc: {"flavour": fl, "probe": [vlib._short(str(z), 80) for z in pdesc[k]]},
                            timeout_s=600, stack_bytes=stack)
+    if not quick:
+        # coverage-guided tier: libFuzzer target with the same in-process oracle; artifacts are re-run through the ordinary harness
+        fexe = vlib.build("fuzz", ["fuzz_parse"])["fuzz_parse"]
+        seeds = [b for _, b in inputs if len(b) < 4096][:6000]
+        dictionary = [k for k in KEYWORDS] + [x for x in SPECIAL if x]
+        stats, arts = vlib.run_libfuzzer(fexe, "c01fuzz", seeds, runs=int(250000 * scale) + 1000, dictionary=dictionary)
+        ctx.counters["libfuzzer"] = stats
+        ctx.evaluations += stats["executions"]
+        if arts:
+            acases = [["P", b] for _, b in arts]
+            ares, hf2 = vlib.run_cases(exe, acases, "c01art", timeout_s=120, batch=1)
+            ctx.harness_failures += hf2
+            judge(ctx, [("fuzz-artifact", b) for _, b in arts], ares)
+            n = vlib.judge_crashes(ctx, exe, acases, ares, "c01art", timeout_s=120)
+            for (fn, b), r in zip(arts, ares):
+                if r.status == "ok" and r.fields[0] in ("ok", "eval_error") and (r.fields[0] != "ok" or r.fields[3] == "0"):
+                    ctx.inconc("fuzzer-artifact-does-not-reproduce:" + fn.split("-")[0], vlib.esc(b)[:300])
+        ctx.min_events["fuzz-executions"] = 1000
+        ctx.counters["fuzz-executions"] = stats["executions"]
     ctx.assumptions += [
         "only inputs the generators produce are judged; a clean ASan run is not a proof of memory safety",
         "ASan flavour runs with a 256 MiB stack so that instrumentation overhead cannot fake an overflow; the plain flavour probes the "
